@@ -181,6 +181,22 @@ class Session(object):
         pa.add_property('number_density')
         return pa
 
+    def spans(self, src):
+        ps = [q for a in src for q in a['p']]
+        return all(len(set(q[key] for q in ps)) >= 2
+                   for key in ('x', 'y', 'z')[:self.cfg['dim']])
+
+    def bootstrap(self, src):
+        dim = self.cfg['dim']
+        out = []
+        for a in src:
+            p = []
+            for k in (0, 1):
+                c = [k if j < dim else 0 for j in range(3)]
+                p.append(dict(x=c[0], y=c[1], z=c[2], h=1, m=1, rho=1, f=0))
+            out.append(dict(name=a['name'], p=p))
+        return out
+
     def construct(self, s):
         cfg = self.cfg
         kernel = get_kernel(cfg['kernel'], cfg['dim'])
@@ -208,8 +224,15 @@ class Session(object):
         api = cfg['api']
         if act == 'Reset':
             if self.obj is None:
-                self.construct(s)
-                return None
+                if self.spans(s['src']):
+                    self.construct(s)
+                    return None
+                # The Interpolator derives its dimension from the bounding
+                # box of the arrays it is constructed with: construct it on
+                # a spanning bootstrap set (two particles per array on the
+                # diagonal), then replace arrays and points as on any live
+                # object.
+                self.construct(dict(s, src=self.bootstrap(s['src'])))
             self.arrays = [self.make_array(a) for a in s['src']]
             if api == 'interp':
                 self.obj.update_particle_arrays(self.arrays)
